@@ -3,11 +3,10 @@ use std::{collections::HashMap, io::Write};
 
 macro_rules! write {
     ($out:expr, $msg:expr ) => {
-        // :3
-        let _ = $out.write($msg.as_ref());
+        $out.write_all($msg.as_ref())?;
     };
     ($out:expr, $( $msg:expr ),+ ) => {
-        let _ = $out.write(format!($( $msg ),*).as_ref());
+        $out.write_all(format!($( $msg ),*).as_ref())?;
     };
 }
 
@@ -82,7 +81,7 @@ impl<'a, 'b> Generator<'a, 'b> {
     }
 
     #[sylt_macro::timed("lua::generate")]
-    pub fn generate(&mut self, ir: &Vec<IR>, require: Option<&String>) {
+    pub fn generate(&mut self, ir: &Vec<IR>, require: Option<&String>) -> std::io::Result<()> {
         write!(self.out, include_str!("preamble.lua"));
         if let Some(file) = require {
             write!(
@@ -276,6 +275,7 @@ impl<'a, 'b> Generator<'a, 'b> {
             }
             write!(self.out, "\n");
         }
+        Ok(())
     }
 }
 
@@ -285,6 +285,6 @@ pub fn generate(
     usage_count: &HashMap<Var, usize>,
     out: &mut dyn Write,
     require: Option<&String>,
-) {
-    Generator::new(usage_count, out).generate(ir, require);
+) -> std::io::Result<()> {
+    Generator::new(usage_count, out).generate(ir, require)
 }
